@@ -286,3 +286,9 @@ pub proof fn lemma_keep_where_last<T>(s: Seq<T>, keep: Seq<bool>)
         lemma_last_true(keep);
     }
 }
+
+/// R-method-map `v.into_iter()` / R-forvec `for x in v`: a Vec consumed by value yields its elements in order
+#[verifier::external_body]
+pub fn vx_vec_into_iter<T>(v: Vec<T>) -> (r: VxIter<T>)
+    ensures r@ == v@, r@.len() <= usize::MAX   // a Vec holds at most usize::MAX elements
+{ unimplemented!() }
